@@ -329,6 +329,11 @@ def legacy_doc(rng, pool_vals, top, classes):
 
 
 def stream_memo_generic(ctx, cirq, n):
+    for shard, m in enumerate([150] * (n // 150) + ([n % 150] if n % 150 else [])):
+        _memo_generic_shard(ctx, cirq, m, shard)
+
+
+def _memo_generic_shard(ctx, cirq, n, shard):
     classes = make_generic_classes(cirq)
     resolver = lambda t: classes.get(t) if isinstance(t, str) else None
     resolvers = [resolver] + list(cirq.DEFAULT_RESOLVERS)
@@ -380,7 +385,7 @@ def stream_memo_generic(ctx, cirq, n):
     text += 'Definition dec_cases : list (json * option value) := [\n' + ';\n'.join(
         f'({g_json(d)}, {coq.opt(r, g_value)})' for d, r in dec_rows) + '].\n'
     text += 'Eval vm_compute in failing (fun c => match c with (j, r) => opt_eqb value_eqb (decode j) r end) dec_cases.\n'
-    vals = coq.parse_evals(coq.coq_eval(f'c11_generic_{ctx.seed}', text))
+    vals = coq.parse_evals(coq.coq_eval(f'c11_generic_{ctx.seed}_{shard}', text))
     assert len(vals) == 2, vals
     for idx in coq.parse_nat_list(vals[0]):
         v, j = enc_rows[idx]
@@ -388,8 +393,10 @@ def stream_memo_generic(ctx, cirq, n):
     for idx in coq.parse_nat_list(vals[1]):
         d, r = dec_rows[idx]
         ctx.mark_broken('correspondence:memo_decode', f'model decode differs from cirq.read_json on {dump_json_ordered(d)[:400]}: implementation gave {r}')
-    ctx.cov['memo_generic'] = dict(encode_cases=len(enc_rows), decode_cases=len(dec_rows),
-                                   decode_errors=sum(1 for _, r in dec_rows if r is None))
+    mg = ctx.cov.setdefault('memo_generic', dict(encode_cases=0, decode_cases=0, decode_errors=0))
+    mg['encode_cases'] += len(enc_rows)
+    mg['decode_cases'] += len(dec_rows)
+    mg['decode_errors'] += sum(1 for _, r in dec_rows if r is None)
 
 
 # ------------------------------------------------------------------------------------------------ real circuits
@@ -483,6 +490,11 @@ def frozen_sharing_ok(cirq, o):
 
 
 def stream_memo_circuits(ctx, cirq, n):
+    for shard, m in enumerate([300] * (n // 300) + ([n % 300] if n % 300 else [])):
+        _memo_circuits_shard(ctx, cirq, m, shard)
+
+
+def _memo_circuits_shard(ctx, cirq, n, shard):
     rows = []
     for i in range(n):
         pool = []
@@ -507,7 +519,7 @@ def stream_memo_circuits(ctx, cirq, n):
         for v, evs in rows) + '].\n'
     text += ('Eval vm_compute in failing (fun c => match c with (v, evs) => wf v && '
              'list_eqb (pair_eqb Bool.eqb Z.eqb) (doc_events (encode bk v)) evs && refs_ok [] (hook_events (encode bk v)) end) ev_cases.\n')
-    vals = coq.parse_evals(coq.coq_eval(f'c11_circ_{ctx.seed}', text))
+    vals = coq.parse_evals(coq.coq_eval(f'c11_circ_{ctx.seed}_{shard}', text))
     assert len(vals) == 1, vals
     for idx in coq.parse_nat_list(vals[0]):
         v, evs = rows[idx]
@@ -597,14 +609,22 @@ def run(ctx):
         '(coverage.corpus), the id()-keyed encoder cache (coverage.id_cache) and pickles opened under another hash seed (coverage.cross_process).')
     ctx.set_obligations(coq.compile_props('C11'))
     specs = load_specs()
-    stream_memo_generic(ctx, cirq, 300 if quick else 3000)
-    stream_memo_circuits(ctx, cirq, 300 if quick else 3000)
-    stream_corpus(ctx, mods, specs)
-    pop = Population(mods, specs)
-    ex = stream_classes(ctx, mods, specs, pop)
-    stream_qids(ctx, mods, pop)
-    stream_id_cache(ctx, mods, pop, ex.instances)
-    stream_xproc(ctx, mods, ex)
+    secs = ctx.cov.setdefault('stream_seconds', {})
+
+    def timed(name, f, *a):
+        t = time.time()
+        r = f(*a)
+        secs[name] = round(time.time() - t, 1)
+        return r
+    secs['props'] = round(time.time() - ctx.t0, 1)
+    timed('memo_generic', stream_memo_generic, ctx, cirq, 300 if quick else 3000)
+    timed('memo_circuits', stream_memo_circuits, ctx, cirq, 300 if quick else 3000)
+    timed('corpus', stream_corpus, ctx, mods, specs)
+    pop = timed('population', Population, mods, specs)
+    ex = timed('classes', stream_classes, ctx, mods, specs, pop)
+    timed('qids', stream_qids, ctx, mods, pop)
+    timed('id_cache', stream_id_cache, ctx, mods, pop, ex.instances)
+    timed('xproc', stream_xproc, ctx, mods, ex)
 
 
 def replay(ctx, data):
@@ -819,7 +839,7 @@ class Mutator:
             pass
         return [o for o in self.pop.by_type.get(t, []) if o != q][:2]
 
-    def alts(self, v, depth=0, sym=False):
+    def alts(self, v, depth=0, sym=False, ann=None):
         """typed alternatives for one field value (as a reader of the document sees it); symbols only where the
         constructor's annotation admits them (sym)"""
         cirq, sympy = self.cirq, self.sympy
@@ -837,6 +857,8 @@ class Mutator:
         if isinstance(v, complex):
             return [v * 1j, v + 0.5, 1j, 0.5 - 0.25j]
         if isinstance(v, str):
+            if v and isinstance(getattr(cirq, v, None), type):      # a class given by name
+                return [n for n in ('ZPowGate', 'CZPowGate', 'YPowGate') if n != v][:2]
             return [v + 'x', 'vf_m']
         if isinstance(v, sympy.Basic):
             out = [sympy.Symbol('vf_u')]
@@ -871,6 +893,11 @@ class Mutator:
             return out
         if isinstance(v, dict):
             out = []
+            fl = [k for k in v if isinstance(v[k], float)]
+            if len(fl) >= 2:                    # move mass between two entries (probability tables must keep their sum)
+                w = dict(v)
+                w[fl[0]], w[fl[1]] = v[fl[0]] + v[fl[1]] / 2, v[fl[1]] / 2
+                out.append(w)
             if depth < 3:
                 for k in list(v)[:2]:
                     for a in self.alts(v[k], depth + 1)[:2]:
@@ -882,6 +909,18 @@ class Mutator:
             return [v + datetime.timedelta(seconds=1.5)]
         if hasattr(v, '_json_dict_') and not isinstance(v, type):
             out = [o for o in self.pop.by_type.get(type(v), []) if not _safe_eq(o, v)][:2]
+            if isinstance(v, cirq.Gate) and not out and ann is not None and re.search(r'(^|[^A-Za-z])Gate\b', ann):   # any gate allowed: another stored core gate of the same shape
+                try:
+                    shape = cirq.qid_shape(v)
+                    for t in sorted(self.pop.by_type, key=lambda t: t.__name__):
+                        if issubclass(t, cirq.Gate) and t is not type(v):
+                            for o in self.pop.by_type[t][:1]:
+                                if t.__module__.startswith('cirq.ops') and cirq.qid_shape(o, None) == shape and _hashable(o):
+                                    out.append(o)
+                        if len(out) >= 2:
+                            break
+                except Exception:      # noqa
+                    pass
             if depth < 2:
                 out += self.mutants(v, keep=2, tries=10, depth=depth + 1)
             return out
@@ -957,7 +996,7 @@ class Mutator:
         for k in d:
             if (cls.__name__, k) in MUTATION_DENYLIST:
                 continue
-            for a in self.alts(d[k], depth, sym=self.admits_symbols(anns.get(k))):
+            for a in self.alts(d[k], depth, sym=self.admits_symbols(anns.get(k)), ann=anns.get(k)):
                 cands.append((k, a, False))
         for k, a in self.ctor_extras(cls, d):
             cands.append((k, a, True))
@@ -1236,7 +1275,7 @@ def _nocache_encoder(cirq):
 def stream_classes(ctx, mods, specs, pop):
     cirq = mods['cirq']
     quick = ctx.tier == 'quick'
-    keep, tries, max_stored = (8, 40, 3) if quick else (24, 120, 12)
+    keep, tries, max_stored = (12, 60, 4) if quick else (32, 160, 12)
     mut = Mutator(mods, pop, ctx.rng)
     ex = Explorer(ctx, mods, pop)
     custom = custom_instances(mods, pop)
